@@ -18,7 +18,7 @@ from ..proj import proj, diff
 from .. import corpus, matcher, layout, ptrace
 from . import c01, c02, c09
 
-MODES = ["space", "lines", "tight", "random", "markers", "sameline"]
+MODES = ["space", "lines", "tight", "random", "markers", "sameline", "flagged"]
 
 
 def _variants(args):
@@ -111,7 +111,7 @@ def spec_level(ctx, tier):
 def run(tier):
     ctx = Ctx("C17", tier, "model_checking")
     rnd = random.Random(ctx.seed)
-    ctx.cov["rule"] = ("token sequences of programs derived by TLC (CGram, CExpr) and of the corpus, each under 4 re-layouts "
+    ctx.cov["rule"] = ("token sequences of programs derived by TLC (CGram, CExpr) and of the corpus, each under 6 re-layouts "
                        "compared with the one-line layout (AST without coordinates and generated text), plus redundant "
                        "parentheses around matcher-reported expression spans; a case is one variant")
     spec_level(ctx, tier)
